@@ -1,7 +1,62 @@
-(* C03 placeholder - replaced when PipelineProofs.v is in place *)
+(* C03 - every example string is matched by one of the regular expressions rexpy returns.
+   Statements are about run_extractor (Rexpy/Pipeline.v), the model of Extractor.__init__ + extract(),
+   for every character table, option record, oracle tables (group splits, matches, sample selections)
+   and input list.  "Matched" is what the match oracle (CPython re.match, recorded per run) says. *)
 From Coq Require Import ZArith List Bool.
-From Tdda Require Import Base.Sexp Base.Str Rexpy.Chars Rexpy.Pipeline.
+From Tdda Require Import Base.Sexp Base.Str Rexpy.Chars Rexpy.Pipeline Rexpy.PipelineProofs.
 Import ListNotations.
-Theorem C03_escaped_bracket_caret_example : escaped_bracket false [94; 45] = [91; 92; 94; 45; 93].
+Open Scope Z_scope.
+
+(* Whenever the run ends with a check that reported no failure (lo_last_failures = []; the harness observes
+   this on every real run), every example that clean keeps - nulls, zero counts and, under remove_empties,
+   empty strings being the explicit discards - is matched by one of the returned expressions.
+   Hypotheses: frequencies are not negative; every random.sample selection is non-empty (k >= 1);
+   no pruning option (max_patterns / min_strings_per_pattern) and the perl dialect, for which the
+   returned expressions are the checked ones. *)
+Theorem C03_loop_covers : forall ct o gt mt samples items lo,
+  run_extractor ct o gt mt samples items = Ok lo ->
+  (forall it, In it items -> 0 <= snd it) ->
+  ne_samples samples -> 0 <= z_max_sampled_attempts o ->
+  no_pruning o -> o_dialect_out o = false ->
+  lo_none lo = false -> lo_last_failures lo = [] ->
+  forall s, In s (ex_strings (fst (clean ct o items))) ->
+  exists r, In r (lo_rex lo) /\ lookup_match mt r s = Some true.
+Proof. exact run_extractor_covers_input. Qed.
+Print Assumptions C03_loop_covers.
+
+(* The explicit discards are exactly: nulls, zero counts, empties when empties are removed: if clean keeps
+   nothing it kept no item, and every stored example would be kept again (so the check's failures are real). *)
+Theorem C03_clean_keeps : forall ct o items,
+  (ex_strings (fst (clean ct o items)) = [] -> forall it, In it items -> kept ct o it = false) /\
+  ((forall it, In it items -> 0 <= snd it) -> wf_all ct o (fst (clean ct o items))).
+Proof. intros ct o items. split; [apply clean_empty_none_kept|apply clean_wf]. Qed.
+Print Assumptions C03_clean_keeps.
+
+(* The check itself: when find_non_matches reports no failure, every stored example is matched. *)
+Theorem C03_check_complete : forall mt rexes all re_freqs,
+  rexes <> [] -> length (ex_strings all) = length (ex_freqs all) ->
+  find_non_matches mt rexes all = Ok ([], re_freqs) ->
+  forall s, In s (ex_strings all) -> exists r, In r rexes /\ lookup_match mt r s = Some true.
+Proof. exact find_non_matches_complete. Qed.
+Print Assumptions C03_check_complete.
+
+(* the bracket for the punctuation set {^, -} no longer starts with a bare caret (the [^-] defect) *)
+Example C03_escaped_bracket_caret : escaped_bracket false [94; 45] = [91; 92; 94; 45; 93].
 Proof. reflexivity. Qed.
-Print Assumptions C03_escaped_bracket_caret_example.
+
+From Coq Require Import String.
+Open Scope string_scope.
+(* non-vacuity: a two-example run through the model with its recorded oracle tables *)
+Example C03_run_example :
+  let o := {| o_tag := false; o_extra := []; o_full_escape := false; o_remove_empties := false; o_strip := false;
+              o_vlf := false; o_max_patterns := None; o_min_strings := 1; o_dialect_out := false;
+              z_do_all := Some 100; z_do_all_exceptions := 4000; z_max_sampled_attempts := 2;
+              z_max_punc_in_group := 5; z_max_strings_in_group := 10 |} in
+  let tagged := s2l "^([^\W_]{2,3})$" in
+  let rex := s2l "^[a-z]{2,3}$" in
+  match run_extractor py_chartab o [(tagged, s2l "ab", [s2l "ab"]); (tagged, s2l "cde", [s2l "cde"])]
+                      [(rex, s2l "ab", true); (rex, s2l "cde", true)] [] [(Some (s2l "ab"), 1); (Some (s2l "cde"), 1)] with
+  | Ok lo => lo_rex lo = [rex] /\ lo_last_failures lo = [] /\ lo_none lo = false
+  | Err _ => False
+  end.
+Proof. vm_compute. repeat split. Qed.
